@@ -76,6 +76,9 @@ def exec_c19(cfg, devs):
 
     def action(scf, *args):
         s = ex.s
+        if scf.uri not in uris:
+            ex.log('bystander', 'action', scf.uri)
+            return
         ex.log('act.begin', scf.uri, args)
         s.point('action.a')
         if uris.index(scf.uri) in fail:
@@ -99,8 +102,33 @@ def exec_c19(cfg, devs):
     else:
         args_dict = {u: [] if i % 2 else [i] for i, u in enumerate(uris)}
 
+    class BystanderFactory:
+        def construct(self, uri):
+            m = _Member(uri, ex, fail_open=False)
+            m.open_link = lambda: ex.log('bystander', 'open_link', uri)
+            m.close_link = lambda: ex.log('bystander', 'close_link', uri)
+            return m
+
     def main():
-        swarm = Swarm(uris, factory=Factory())
+        if cfg.get('bystander'):
+            # another swarm of other Crazyflies lives in the same process (constructed first, and one more afterwards)
+            info['other'] = Swarm(['sim://b0', 'sim://b1'], factory=BystanderFactory())
+        form = cfg.get('uris_form', 'list')
+        if form == 'generator':
+            given = (u for u in uris)
+        elif form == 'dup':
+            given = list(uris) + [uris[0]]
+        elif form == 'set':
+            given = set(uris)
+        else:
+            given = list(uris)
+        swarm = Swarm(given, factory=Factory())
+        if form == 'mutated':
+            # the caller's list is the caller's: it changes after the swarm has been built
+            given.append('sim://added-later')
+            given.remove(uris[0])
+        if cfg.get('bystander'):
+            info['other2'] = Swarm(['sim://b2'], factory=BystanderFactory())
         info['swarm'] = swarm
         try:
             if mode == 'sequential':
@@ -155,6 +183,9 @@ def _judge(p, cfg, devs, ex, info, uris, args_dict):
     if s.status != 'ok':
         viol(s.status, 'did not complete: %r' % ([(b['thread'], b['label']) for b in (s.blocked_report or [])],))
         return
+    touched = [e[2:] for e in ev if e[1] == 'bystander']
+    if touched:
+        viol('touched_a_crazyflie_of_another_swarm', 'members of other Swarm objects in the process were used: %r' % (touched[:4],))
     end_pos = next((i for i, e in enumerate(ev) if e[1] in ('returned', 'raised', 'second_open')), len(ev))
     final = next((e for e in ev if e[1] in ('returned', 'raised')), None)
     if mode in ('sequential', 'parallel', 'parallel_safe'):
@@ -249,6 +280,15 @@ def configs(quick):
                     out.append({'name': '%s:n%d:fail%s:%s' % (mode, n, ''.join(map(str, fail)) or '-', args),
                                 'n': n, 'mode': mode, 'fail': fail, 'args': args})
         out.append({'name': 'open_twice:n%d' % n, 'n': n, 'mode': 'open_twice', 'fail': (), 'args': 'none'})
+        # how the URIs were given (a list changed afterwards, a generator, a duplicate entry) and another swarm in the process
+        if n >= 2:
+            for mode in ('sequential', 'parallel', 'parallel_safe', 'open'):
+                for form in ('mutated', 'generator', 'dup'):
+                    out.append({'name': '%s:n%d:uris_%s' % (mode, n, form), 'n': n, 'mode': mode, 'fail': (),
+                                'args': 'none' if mode == 'open' else 'lists', 'uris_form': form})
+                for fail in ((), (0,)):
+                    out.append({'name': '%s:n%d:fail%s:other_swarms' % (mode, n, ''.join(map(str, fail)) or '-'), 'n': n,
+                                'mode': mode, 'fail': fail, 'args': 'none' if mode == 'open' else 'lists', 'bystander': True})
     return out
 
 
